@@ -109,6 +109,11 @@ func (p *LeakyBucketPacer) Write(header *rtp.Header, payload []byte, attributes 
 		return 0, errLeakyBucketPacerPoolCastFailed
 	}
 
+	if len(payload) > len(*buf) {
+		// larger than the pooled buffers: use one that fits
+		b := make([]byte, len(payload))
+		buf = &b
+	}
 	copy(*buf, payload)
 	hdr := header.Clone()
 
